@@ -208,6 +208,8 @@ def units(tier, seed=0):
             tracked = any(q.elem in 'tm' for q in L.params)
             if tracked:
                 txt, L = vec.c_unit(spec, f, maxc=2)
+            if all(q.elem in 'ux' for q in L.params):
+                txt, L = vec.c_unit(spec, f, maxc=3)   # the comparison oracle enumerates the span items
             for name, h, key, props, repl, extra in vec.VEC_UNITS_COMMON + (vec.VEC_UNITS_VAR if L.is_varying() else vec.VEC_UNITS_FIXED):
                 if tracked:
                     if name not in ('pop_back', 'clear', 'erase', 'dtor', 'emplace_back', 'subscript', 'copy_assign', 'move_assign'):
@@ -220,10 +222,23 @@ def units(tier, seed=0):
                 u = dict(id='vec.%s.F%d.%s' % (L.tag, f, name), tu='vec_%s_F%d' % (L.tag, f), gen=cxx, template_text=txt, vars={}, entry=h,
                          enforce=('@F{%s}' % vec.RXV[key]) if key else None, replace=['@F{%s}' % vec.REPL[r] for r in repl], props=props, layer='vector.hpp/elementLocator.hpp',
                          kind=extra.get('kind', 'proof'), config='vector: %s, allocator traits F=%d' % (spec, f), replay='history')
+                if extra.get('intonly') and not all(q.elem in 'ux' for q in L.params): continue
+                if extra.get('bytesonly') and not all(q.kind in 'pc' and q.elem == 'u' and q.size == 1 for q in L.params): continue
+                if extra.get('intonly') and extra.get('lt'):
+                    eq_b = all(q.elem == 'u' for q in L.params); lt_b = all(q.elem == 'u' and q.size == 1 for q in L.params) and not L.is_varying()
+                    if extra.get('eq') and eq_b != lt_b: continue     # whole-buffer == next to element-wise <: no common unwinding bound within the memory budget
+                    if tier != 'thorough' and not lt_b and spec != 'f4x': continue   # element-wise < (about 100 s per unit): one list in the quick tier
+                if all(q.elem in 'ux' for q in L.params) and not extra.get('intonly'): continue   # integer lists exist for the comparison units only
                 if extra.get('tier') == 'thorough' and tier != 'thorough': continue
                 if extra.get('timeout'): u['timeout'] = extra['timeout']
                 if extra.get('law'): u['expect_classes'] = ['assertion']
                 if extra.get('unwind'): u['unwind'] = extra['unwind']
+                if extra.get('intonly'):
+                    # whole-buffer paths loop once per byte of the (<= 32 byte) block, the element-wise paths over <= 2 elements and <= 3 items
+                    eq_bytes = all(q.elem == 'u' for q in L.params)
+                    lt_bytes = all(q.elem == 'u' and q.size == 1 for q in L.params) and not L.is_varying()
+                    uses_eq = not extra.get('lt') or extra.get('eq')
+                    u['unwind'] = 36 if ((uses_eq and eq_bytes) or (extra.get('lt') and lt_bytes)) else 6
                 u['cdefs'] = ['VF_BLOCK_K=1'] + (['VF_TRACKED=1'] if tracked else []) + (['VF_TRIVIAL_DTOR=1'] if tracked and all(q.elem != 't' for q in L.params) else [])
                 if extra.get('cdefs_nvar'): u['cdefs'].append('VF_WINDOWS=%d' % min(4, 2 * L.nvar))
                 u['cdefs'] += extra.get('cdefs', [])
@@ -234,8 +249,11 @@ def units(tier, seed=0):
                 shapes = [(c, b, c, b) for c, b in VEC_SHAPES[tier]] if not tracked else [(2, 48, 2, 48)]
                 if extra.get('two'):
                     shapes = VEC_SHAPES2[tier] if not tracked else [(2, 48, 2, 48), (1, 16, 2, 48)]
+                if extra.get('intonly'):
+                    shapes = VEC_SHAPES_CMP[tier]
                 for capk, unitsk, capo, unitso in shapes:
                     uu = dict(u); uu['id'] = u['id'] + '.cap%d' % capk + ('o%d' % capo if extra.get('two') else '')
+                    if any(x['id'] == uu['id'] for x in us[-8:]): continue   # one-operand units: shapes that differ in the other operand only
                     uu['cdefs'] = u['cdefs'] + ['CAPK=%d' % capk, 'UNITSK=%d' % max(0, unitsk // L.sa), 'CAPK_O=%d' % capo, 'UNITSK_O=%d' % max(0, unitso // L.sa)]
                     if u['kind'] == 'proof':
                         uu['kind'] = 'bounded(capacity=%d, block=%d bytes; size, contents and offsets symbolic)' % (capk, max(0, unitsk // L.sa) * L.sa)
@@ -245,6 +263,8 @@ def units(tier, seed=0):
 
 # (capacity, block bytes) of the target and of the source operand: target smaller and target larger than the source
 VEC_SHAPES2 = {'quick': [(2, 32, 3, 64), (3, 64, 2, 32)], 'thorough': [(2, 32, 3, 64), (3, 64, 2, 32), (0, 0, 3, 64), (3, 64, 0, 0), (3, 64, 3, 64)]}
+# comparison units: both operands small (the whole-buffer comparison loops run once per byte)
+VEC_SHAPES_CMP = {'quick': [(2, 16, 2, 16)], 'thorough': [(2, 16, 2, 16), (3, 32, 2, 16), (0, 0, 2, 16), (2, 16, 0, 0)]}
 VEC_SHAPES = {'quick': [(3, 64)], 'thorough': [(0, 0), (1, 32), (3, 64), (4, 96)]}
 
 
@@ -270,6 +290,15 @@ def exc_vec_units(tier):
 
 
 def vec_catalogue(tier):
+    quick = [('c4 v4', [0]), ('f4', [0]), ('c8a8 v2 p4a8', [3, 4]), ('f2a4 p1', [1]), ('f4t', [0]), ('c4 f4t', [0]), ('f4m', [0]),
+             # lists of integer / floating-point fields: vector-level comparison units only
+             ('f4u', [0]), ('c1 c1', [0]), ('c1 c1a2 c1', [0]), ('c1 c4a4', [0]), ('c2 v2u', [0]), ('c4a4 v2u', [0]), ('f4x', [0])]
     if tier == 'quick':
-        return [('c4 v4', [0]), ('f4', [0]), ('c8a8 v2 p4a8', [3, 4]), ('f2a4 p1', [1]), ('f4t', [0]), ('c4 f4t', [0]), ('f4m', [0])]
-    return [('c4 v4', [0, 5]), ('f4', [0, 10]), ('c8a8 v2 p4a8', [3]), ('p4 p8a8', [0]), ('f3 f5a4 p2a2', [6]), ('c4 v4 c4 v4', [0]), ('c2 v3 c1 v5a4 p1', [0]), ('f4a16 c4 v4a8', [9])]
+        return quick
+    more = [('c4 v4', [5]), ('f4', [10]), ('p4 p8a8', [0]), ('f3 f5a4 p2a2', [6]), ('c4 v4 c4 v4', [0]), ('c2 v3 c1 v5a4 p1', [0]), ('f4a16 c4 v4a8', [9]), ('c4 v4x', [0])]
+    cat = [(sp, list(fl)) for sp, fl in quick]
+    for sp, fl in more:
+        hit = [c for c in cat if c[0] == sp]
+        if hit: hit[0][1].extend(f for f in fl if f not in hit[0][1])
+        else: cat.append((sp, list(fl)))
+    return cat
